@@ -424,7 +424,7 @@ def _visited_guard(ctx, fn, call):
     for pc in P.path_conds(fn, call):
         if pc[0] in ('if',):
             # `a && visited.insert(x) && rec(..)`: the left operand is itself a conjunction
-            for n in walk(pc[1]):
+            for n in H.walk_through_locals(fn, pc[1]):
                 if n['k'] == 'mcall' and n['method'] in VISITED_METHODS:
                     rt = n['recv'].get('ty', '') + n['recv'].get('aty', '')
                     if 'BTreeSet' in rt or 'HashSet' in rt or 'Vec<' in rt or 'BTreeMap' in rt:
@@ -471,12 +471,18 @@ def rule_rec_guard(ctx):
                         continue
                     fields = set()
                     senv = H.sym_env(fn)
+                    node_terms = []
                     for a in call.get('args', []) + ([call['recv']] if call.get('k') == 'mcall' else []):
                         aty = a.get('ty', '') + a.get('aty', '')
                         # only arguments that denote a node (set) of the traversed structure, not contexts/counters
                         if not any(x in aty for x in NODE_TYPES):
                             continue
-                        fields |= TM.fields_in(ctx.pv.eval(fn, a, senv, 0))
+                        t_ = ctx.pv.eval(fn, a, senv, 0)
+                        node_terms.append(t_)
+                        fields |= TM.fields_in(t_)
+                    if node_terms and all(t_[0] == 'param' for t_ in node_terms):
+                        obs.append(ok('REC-GUARD', inst, 'delegates its own node argument unchanged to a helper of the same traversal (no descent on this edge)', loc))
+                        continue
                     if 'ResolvedFragment.selection_set' in fields:
                         kind = 'follows a fragment spread (fragment pool, can be cyclic)'
                     elif 'Schema.stored_inputs' in fields or any(f.startswith('StoredInputType.') for f in fields):
